@@ -412,12 +412,28 @@ class FTPProcessorSession(BaseProcessorSession):
         path = self._file_writer_session.extra_resource_path('dummy')
 
         if path:
+            if not link_target or link_name in ('', '.', '..') or \
+                    os.path.basename(link_name) != link_name:
+                # The names come from the server's listing
+                _logger.warning(
+                    _('Not creating symbolic link {symlink_path}.'),
+                    symlink_path=ascii(link_name)
+                )
+                return
+
             dir_path = os.path.dirname(path)
             symlink_path = os.path.join(dir_path, link_name)
 
             _logger.debug('symlink {} -> {}', symlink_path, link_target)
 
-            os.symlink(link_target, symlink_path)
+            try:
+                os.symlink(link_target, symlink_path)
+            except (OSError, ValueError) as error:
+                _logger.warning(
+                    _('Could not create symbolic link {symlink_path}: {error}'),
+                    symlink_path=ascii(symlink_path), error=error
+                )
+                return
 
             _logger.info(
                 _('Created symbolic link {symlink_path} to target {symlink_target}.'),
